@@ -538,6 +538,67 @@ add("C01", "available-name-asked-for-fresh-node", "core_codemods/replace_flask_s
       "        wrapped = self._wrap_in_path(expr)\n        available_name = self.generate_available_name(wrapped, [\"p\"])\n        named_expr = cst.NamedExpr(\n            target=cst.Name(available_name),\n            value=wrapped,")],
     "fire", "R-METADATA-ORIGINAL", "_build_args_with_path_and_named_expr")
 
+add("C11", "pipeline-keeps-parsed-tree-on-itself", "codemodder/codemods/libcst_transformer.py",
+    [("        tree = source_tree\n", "        self.source_tree = source_tree\n        tree = self.source_tree\n")],
+    "fire", "R-WORKER-ISOLATION", "LibcstTransformerPipeline.apply")
+add("C11", "manifests-sorted-by-depth-only", "codemodder/project_analysis/file_parsers/base_parser.py",
+    [("        return sorted(\n            path\n            for path in Path(self.parent_directory).rglob(self.file_type.value)\n            if not path.is_symlink()\n        )\n",
+      "        return sorted(\n            (path for path in Path(self.parent_directory).rglob(self.file_type.value) if not path.is_symlink()),\n            key=lambda path: len(path.parts),\n        )\n")],
+    "fire", "R-NO-UNORDERED-ITER", "find_file_locations")
+add("C11", "benign-manifests-sorted-by-depth-then-path", "codemodder/project_analysis/file_parsers/base_parser.py",
+    [("        return sorted(\n            path\n            for path in Path(self.parent_directory).rglob(self.file_type.value)\n            if not path.is_symlink()\n        )\n",
+      "        return sorted(\n            (path for path in Path(self.parent_directory).rglob(self.file_type.value) if not path.is_symlink()),\n            key=lambda path: (len(path.parts), path),\n        )\n")],
+    "silent")
+add("C12", "sonar-findings-generator-walked-twice", "core_codemods/sonar/results.py",
+    [("            result_set = cls()\n            for result in (data.get(\"issues\") or []) + (data.get(\"hotspots\") or []):\n                if result[\"status\"].lower() in (\"open\", \"to_review\"):\n                    result_set.add_result(SonarResult.from_result(result))\n",
+      "            found = (r for r in (data.get(\"issues\") or []) + (data.get(\"hotspots\") or []) if r[\"status\"].lower() in (\"open\", \"to_review\"))\n            logger.debug(\"open findings: %s\", [r.get(\"key\") for r in found])\n            result_set = cls()\n            for result in found:\n                result_set.add_result(SonarResult.from_result(result))\n")],
+    "fire", "R-ONE-SHOT-ITER", "SonarResultSet.from_json")
+add("C12", "tool-component-index-tested-by-truthiness", "codemodder/result.py",
+    [("            tool_index = result[\"rule\"][\"toolComponent\"][\"index\"]\n            rule_index = result[\"rule\"][\"index\"]\n            return sarif_run[\"tool\"][\"extensions\"][tool_index][\"rules\"][rule_index][\n                \"id\"\n            ]\n",
+      "            tool_index = result[\"rule\"].get(\"toolComponent\", {}).get(\"index\")\n            rule_index = result[\"rule\"][\"index\"]\n            comp = sarif_run[\"tool\"][\"extensions\"][tool_index] if tool_index else sarif_run[\"tool\"][\"driver\"]\n            return comp[\"rules\"][rule_index][\"id\"]\n")],
+    "fire", "R-INDEX-ZERO", "extract_rule_id")
+add("C12", "benign-tool-component-index-tested-for-none", "codemodder/result.py",
+    [("            tool_index = result[\"rule\"][\"toolComponent\"][\"index\"]\n            rule_index = result[\"rule\"][\"index\"]\n            return sarif_run[\"tool\"][\"extensions\"][tool_index][\"rules\"][rule_index][\n                \"id\"\n            ]\n",
+      "            tool_index = result[\"rule\"].get(\"toolComponent\", {}).get(\"index\")\n            rule_index = result[\"rule\"][\"index\"]\n            comp = sarif_run[\"tool\"][\"extensions\"][tool_index] if tool_index is not None else sarif_run[\"tool\"][\"driver\"]\n            return comp[\"rules\"][rule_index][\"id\"]\n")],
+    "silent")
+add("C13", "assert-tuple-multiple-passes", "core_codemods/fix_assert_tuple.py",
+    [("    change_description = \"Separate assertion on a non-empty tuple literal into multiple assert statements.\"\n",
+      "    change_description = \"Separate assertion on a non-empty tuple literal into multiple assert statements.\"\n\n    def should_allow_multiple_passes(self) -> bool:\n        return True\n")],
+    "fire", "R-MULTIPASS-LINES", "FixAssertTupleTransform")
+add("C15", "writers-changeset-helper-names-bare-file", "codemodder/dependency_management/requirements_txt_writer.py",
+    [("        return ChangeSet(\n            path=str(self.path.relative_to(self.parent_directory)),\n            diff=diff,\n            changes=changes,\n        )\n",
+      "        return self.build_changeset(diff, changes)\n\n    def build_changeset(self, diff, changes):\n        return ChangeSet(path=self.path.name, diff=diff, changes=changes)\n")],
+    "fire", "R-RELATIVE-PATH", "RequirementsTxtWriter.add_to_file")
+add("C15", "benign-writers-changeset-public-helper", "codemodder/dependency_management/requirements_txt_writer.py",
+    [("        return ChangeSet(\n            path=str(self.path.relative_to(self.parent_directory)),\n            diff=diff,\n            changes=changes,\n        )\n",
+      "        return self.build_changeset(diff, changes)\n\n    def build_changeset(self, diff, changes):\n        return ChangeSet(path=str(self.path.relative_to(self.parent_directory)), diff=diff, changes=changes)\n")],
+    "silent")
+add("C16", "verify-flipped-by-pattern-over-subtree", "core_codemods/requests_verify.py",
+    [("        return self.update_arg_target(updated_node, new_args)\n",
+      "        del new_args\n        from libcst import matchers as m\n        import libcst as cst\n        return m.replace(updated_node, m.Arg(keyword=m.Name(\"verify\")), lambda a, _: a.with_changes(value=cst.Name(\"True\")))\n")],
+    "fire", "R-EDIT-TARGETED", "RequestsVerify.on_result_found")
+add("C17", "skip-all-when-default-filtered-paths-empty", "codemodder/codemodder.py",
+    [("    if not context.files_to_analyze:\n        logger.info(\"no files to scan\")\n", "    if not context.find_and_fix_paths:\n        logger.info(\"no files to scan\")\n")],
+    "fire", "R-ORDER-PRESERVED", "apply_codemods")
+add("C17", "benign-apply-loop-over-copy", "codemodder/codemodder.py",
+    [("    for codemod in codemods_to_run:\n        # NOTE: this may be used as a progress indicator by upstream tools\n", "    for codemod in list(codemods_to_run):\n        # NOTE: this may be used as a progress indicator by upstream tools\n")],
+    "silent")
+add("C18", "module-pruned-by-content-precheck", "core_codemods/django_debug_flag_on.py",
+    [("    def visit_Module(self, _: cst.Module) -> bool:\n        \"\"\"\n        Only visit module with this codemod if it's a settings.py file.\n        \"\"\"\n        return is_django_settings_file(self.file_context.file_path)\n",
+      "    def visit_Module(self, node: cst.Module) -> bool:\n        return is_django_settings_file(self.file_context.file_path) and any(isinstance(s, cst.SimpleStatementLine) for s in node.body)\n")],
+    "fire", "R-NO-CONTENT-PRUNE", "DjangoDebugFlagOn.visit_Module")
+add("C18", "detector-reuses-prefilter-findings", "codemodder/codemods/semgrep.py",
+    [("            return semgrep_run(context, yaml_files, files_to_analyze)\n",
+      "            cached = (context.semgrep_prefilter_results or {}).get(codemod_id)\n            if cached:\n                return context.semgrep_prefilter_results\n            return semgrep_run(context, yaml_files, files_to_analyze)\n")],
+    "fire", "R-DETECTOR-FRESH", "SemgrepRuleDetector.apply")
+add("C19", "xml-accepts-all-for-empty-results", "codemodder/codemods/xml_transformer.py",
+    [("        if self.results is None:\n            return True\n        for result in self.results or []:\n", "        if not self.results:\n            return True\n        for result in self.results or []:\n")],
+    "fire", "R-RESULT-DRIVEN", "XMLTransformer.match_result")
+add("C20", "sarif-handler-hoisted-around-runs-loop", "codemodder/sarifs.py",
+    [("            for run in data[\"runs\"]:\n                try:\n                    if det.detect(run):\n                        logger.debug(\"detected %s sarif: %s\", name, fname)\n                        # According to the Codemodder spec, it is invalid to have multiple SARIF results for the same tool\n                        # https://github.com/pixee/codemodder-specs/pull/36\n                        if name in results:\n                            raise DuplicateToolError(\n                                f\"duplicate tool sarif detected: {name}\"\n                            )\n                        results[name].append(str(fname))\n                except DuplicateToolError as err:\n                    raise err\n                except (KeyError, AttributeError, ValueError):\n                    continue\n",
+      "            try:\n                for run in data[\"runs\"]:\n                    if det.detect(run):\n                        if name in results:\n                            raise DuplicateToolError(\n                                f\"duplicate tool sarif detected: {name}\"\n                            )\n                        results[name].append(str(fname))\n            except DuplicateToolError as err:\n                raise err\n            except (KeyError, AttributeError, ValueError):\n                continue\n")],
+    "fire", "R-EVERY-INPUT-READ", "detect_sarif_tools")
+
 # --------------------------------------------------------------------------- C02
 add("C02", "secure-random-import-dropped", "core_codemods/secure_random.py",
     [("        self.add_needed_import(\"secrets\")\n", "")],
